@@ -1,5 +1,6 @@
 import Cvise.Model.Binary
 import Cvise.Gen.Const
+import Cvise.Gen.Tools
 /-!
 # C15 — clang_delta is driven so that instance ranges tile the instances exactly
 
@@ -141,5 +142,26 @@ theorem best_std_spec (counts : List (String × Int)) (hne : counts ≠ []) (hpo
     exact this
 
 theorem shipped_cmp_is_ge : Gen.bestStdCmp = .ge ∧ Gen.bestStdInit = -1 := by decide
+
+/-! ### the output of a failed tool run is never used -/
+
+/-- the code a driver treats as success -/
+def okCode (drv : String) : Int := if drv = "clex" then 51 else 0
+
+/-- **a tool run that fails leaves the file alone and is not reported OK**: for each of the three helper drivers
+    (`ClangPass`, `ClangBinarySearchPass`, `ClexPass`) and every return code in the regenerated table — ordinary failures,
+    the protocol's STOP codes, and deaths from a signal (negative codes) — the test case is overwritten with the tool's
+    output only on the success code, and only the success code yields `OK`.  (`Gen.pyRun` is produced by running the
+    statement list of each `transform` on concrete return codes, so an early-return rewrite of the same logic gives the
+    same table.) -/
+theorem failed_run_output_unused :
+    Gen.pyRun.all (fun d => d.2.all (fun e => (e.2.2 == true || e.2.1 == "OK") == (e.1 == okCode d.1))) = true := by decide
+
+/-- a tool killed by a signal (SIGSEGV, SIGABRT, SIGKILL, SIGTERM) is an ERROR for every driver -/
+theorem signal_deaths_are_errors :
+    Gen.pyRun.all (fun d => d.2.all (fun e => decide (e.1 < 0) → e.2.1 == "ERROR")) = true := by decide
+
+/-- all three drivers are in the table, with the same 13 codes each -/
+theorem run_table_complete : Gen.pyRun.map (·.1) = ["clang", "clangbinarysearch", "clex"] ∧ Gen.pyRun.all (fun d => d.2.length == 13) = true := by decide
 
 end Cvise.C15
